@@ -153,17 +153,23 @@ class SDy:
         return a, b, e, max(self.nb + self.e - e, o.nb + o.e - e)
 
     def __add__(self, o):
+        if isinstance(o, SRl):
+            return NotImplemented
         o = SDy.of(o, self.dtype)
         a, b, e, nb = self._align(o)
         return SDy.rounded(z3.simplify(a + b), e, nb + 1, _fl_res(self, o))
     __radd__ = __add__
 
     def __sub__(self, o):
+        if isinstance(o, SRl):
+            return NotImplemented
         o = SDy.of(o, self.dtype)
         a, b, e, nb = self._align(o)
         return SDy.rounded(z3.simplify(a - b), e, nb + 1, _fl_res(self, o))
 
     def __mul__(self, o):
+        if isinstance(o, SRl):
+            return NotImplemented
         o = SDy.of(o, self.dtype)
         # power-of-two constants only shift the exponent
         om = z3.simplify(o.m) if isinstance(o.m, z3.ExprRef) else z3.IntVal(o.m)
@@ -174,6 +180,8 @@ class SDy:
     __rmul__ = __mul__
 
     def __truediv__(self, o):
+        if isinstance(o, SRl):
+            return NotImplemented
         o = SDy.of(o, self.dtype)
         om = z3.simplify(o.m) if isinstance(o.m, z3.ExprRef) else z3.IntVal(o.m)
         if z3.is_int_value(om) and abs(om.as_long()) == 1:
